@@ -172,6 +172,10 @@ def _get_indented_documentation(
         doc = re.sub(r"\[(?P<class>[A-Za-z]*)\]\(\#(?P=class)\)", r"\1", doc)
         doc = re.sub(r"\[(?P<class>[\S]*)(\[\])\]\(\#(?P=class)\)", r"\1\2", doc)
         doc = re.sub(r"\[([\w\ ]+)\]\(\#[\w\.]+\)", r"\1", doc)
+        # The text is emitted between triple quotes: keep it from ending the literal.
+        doc = doc.replace('"""', '\\"\\"\\"')
+        if doc.endswith(('"', "\\")):
+            doc += " "
     return doc
 
 
